@@ -26,7 +26,7 @@ RISK_WORDS = {
     "equals-word": ["k=v", "--k=v", "a=b=c"],
 }
 NEUTRAL = {"colon-word": "ab", "comma-word": "ab", "brace-word": "ab", "operator-word": "xy", "equals-word": "kv"}
-RISKS = list(RISK_WORDS) + ["string-trailing-blank", "block-macro-blank-run", "alias-macro", "call-macro", "crlf", "tabs-in-string", "fstring-nested-spec", "tab-before-comment"]
+RISKS = list(RISK_WORDS) + ["string-trailing-blank", "block-macro-blank-run", "alias-macro", "call-macro", "crlf", "tabs-in-string", "fstring-nested-spec", "tab-before-comment", "line-boundary-char"]
 
 PY_STMTS = [
     "x=1", "y = x+1", "z=[1,2 ,3]", "d={'a':1,'b' :2}", "def f(a,b=2,*c,**d):\n    return a+b", "class C(object):\n    x=1\n    def m(self):return self.x",
@@ -93,7 +93,7 @@ class Gen:
             a = f"cmd0! {t}"
             return a, "cmd0 ok"
         if self.risk == "call-macro":
-            t = self.r.choice(["x  +  y", "a,b", "1 :2", "'s'  'p'"])
+            t = self.r.choice(["x  +  y", "a,b", "1 :2", "'s'  'p'", "SELECT  max(id)   AS   top   FROM   t", "f(a,  b)   +   c", "{a:1}   x  y", "[1,2]   y  :z", "a (b  (c)  d)  e   f"])
             a = f"r = mac!({t})"
             return a, "r = 1"
         if self.risk == "block-macro-blank-run":
@@ -125,8 +125,18 @@ class Gen:
         n = self.r.randint(1, 6)
         parts_a, parts_b = [], []
         indent_style = self.r.choice(["    ", "    ", "  ", "\t", "        "])
+        forced = []
+        if self.risk == "line-boundary-char":
+            # the character comes first; what follows are the constructs whose text a formatter copies from the source by
+            # line number: f-string segments, raw macro arguments, continuation lines inside brackets
+            ch = self.r.choice(["\x0c", "\x0b", "\x1c", "\x1e", "\x85", "\u2028"])
+            c = self.r.choice([f"s = 'page1{ch}page2'", f"# note {ch} more", f'd = """doc{ch}\nline"""'])
+            forced.append((c, c.replace(ch, "-")))
+            for t in self.r.sample(["m = f'hello {{x}} {val}!'", "r = mac!(a   b    c)", "t = (s,\n     r)", "cmd0! raw   text  here", "values = compute(\n    a,\n    b)"], 2):
+                forced.append((t, t))
+            n = max(n, len(forced))
         for i in range(n):
-            blk = self.block()
+            blk = forced[i] if i < len(forced) else self.block()
             if blk is None:
                 blk = self.python()
             a, b = blk
@@ -296,6 +306,13 @@ class C17:
             if v2[0] in ("ok",):
                 rec.violation(f"{v[0]}/{risk}", case, v[1])
                 return
+        if v[0] == "MEANING-CHANGED/other" and "FormattedValue.format_spec" in str((v[1] or {}).get("path")) and re.search(r"\{[^{}]*:\{", s):
+            # a corpus statement (no neutral twin) that contains the construct of a listed finding
+            rec.violation("MEANING-CHANGED/other/fstring-nested-spec", case, v[1])
+            return
+        if v[0] == "MEANING-CHANGED/other" and str((v[1] or {}).get("path", "")).endswith("JoinedStr.values") and re.search(r"\{[^{}]*(\s=\s*|=\s+)[}!:]", s):
+            rec.violation("MEANING-CHANGED/other/fstring-self-documenting-whitespace", case, v[1])
+            return
         if v[0].startswith("NOT-IDEMPOTENT") and re.search(r"\\\r?\n[ \t]*#", s):
             rec.violation("NOT-IDEMPOTENT/comment-line-after-backslash-continuation", case, v[1])
             return
@@ -343,7 +360,8 @@ class C17:
         rng = random.Random(f"{sh['seed']}/C17/{sh['index']}")
         # directed: the property's own example and the pilot's classes
         if sh["index"] == 0:
-            for s, n, risk in [("x = '''a  \nb'''\n", "x = '''a\nb'''\n", "string-trailing-blank"), ("scp a b:c\n", "scp a bc\n", "colon-word"), ("echo a,b\n", "echo ab\n", "comma-word"), ("echo x==y\n", "echo xy\n", "operator-word"), ("with! ctxm:\n    raw  block  text\n", "with! ctxm:\n    raw block text\n", "block-macro-blank-run")]:
+            for s, n, risk in [("x = '''a  \nb'''\n", "x = '''a\nb'''\n", "string-trailing-blank"), ("scp a b:c\n", "scp a bc\n", "colon-word"), ("echo a,b\n", "echo ab\n", "comma-word"), ("echo x==y\n", "echo xy\n", "operator-word"), ("with! ctxm:\n    raw  block  text\n", "with! ctxm:\n    raw block text\n", "block-macro-blank-run"), ("m = f'X{x  =}Y'\n", None, None),
+                               ("s = 'page1\u2028page2'\n\nwith ctxm:\n        cmd0 | cmd1 -x\n", "s = 'page1-page2'\n\nwith ctxm:\n        cmd0 | cmd1 -x\n", "line-boundary-char")]:
                 self.run_case({"kind": "src", "src": s, "neutral": n, "risk": risk}, rec)
         for i in range(sh["n"]):
             risk = rng.choice([None] * 6 + RISKS)
